@@ -1,2 +1,488 @@
-use crate::ops::Op;
-pub fn register(_ops: &mut Vec<Op>) {}
+//! C17: every spelling of one operation gives the same bits as the inherent operation of the
+//! concrete type. Differential entries: `run` is one spelling, `slow` the inherent one; both
+//! are real crate code, equality of bits is the oracle.
+
+use crate::gen::Kind;
+use crate::ops::{Op, OutKind};
+use crate::orc;
+use crate::pt::{PT, QT};
+use softposit::{P16E1, P32E2, P8E0, Q16E1, Q32E2, Q8E0};
+
+fn nm<T: PT>(s: &str) -> String {
+    format!("{}::spell::{}", T::NAME, s)
+}
+fn fcat(c: core::num::FpCategory) -> u64 {
+    use core::num::FpCategory::*;
+    match c {
+        Zero => 0,
+        Nan => 1,
+        Normal => 2,
+        Infinite => 3,
+        Subnormal => 4,
+    }
+}
+
+macro_rules! un {
+    ($ops:ident, $T:ident, $name:expr, $a:expr, $b:expr) => {
+        $ops.push(
+            Op::new(nm::<$T>($name), &["C17"], &[Kind::Pat($T::F)], OutKind::Raw, |x, _, _| {
+                let f: fn($T) -> u64 = $a;
+                f($T::fb(x))
+            })
+            .slow(|x, _, _| {
+                let g: fn($T) -> u64 = $b;
+                Some(g($T::fb(x)))
+            })
+            .weight(0.25),
+        );
+    };
+}
+macro_rules! bin {
+    ($ops:ident, $T:ident, $name:expr, $a:expr, $b:expr) => {
+        $ops.push(
+            Op::new(
+                nm::<$T>($name),
+                &["C17"],
+                &[Kind::Pat($T::F), Kind::Pat($T::F)],
+                OutKind::Raw,
+                |x, y, _| {
+                    let f: fn($T, $T) -> u64 = $a;
+                    f($T::fb(x), $T::fb(y))
+                },
+            )
+            .slow(|x, y, _| {
+                let g: fn($T, $T) -> u64 = $b;
+                Some(g($T::fb(x), $T::fb(y)))
+            })
+            .weight(0.25),
+        );
+    };
+}
+macro_rules! nul {
+    ($ops:ident, $T:ident, $name:expr, $a:expr, $b:expr) => {
+        $ops.push(
+            Op::new(nm::<$T>($name), &["C17"], &[], OutKind::Raw, |_, _, _| {
+                let f: fn() -> u64 = $a;
+                f()
+            })
+            .slow(|_, _, _| {
+                let g: fn() -> u64 = $b;
+                Some(g())
+            }),
+        );
+    };
+}
+macro_rules! from_int_spell {
+    ($ops:ident, $T:ident, $It:ty, $bits:expr, $signed:expr, $name:literal, $inh:ident, $fp:ident) => {
+        $ops.push(
+            Op::new(
+                nm::<$T>(concat!("From<", $name, ">")),
+                &["C17"],
+                &[Kind::Int { bits: $bits, signed: $signed, f: $T::F }],
+                OutKind::Raw,
+                |x, _, _| <$T as From<$It>>::from(x as $It).tb(),
+            )
+            .slow(|x, _, _| Some($T::$inh(x as $It).tb()))
+            .weight(0.25),
+        );
+        $ops.push(
+            Op::new(
+                nm::<$T>(concat!("FromPrimitive::from_", $name)),
+                &["C17"],
+                &[Kind::Int { bits: $bits, signed: $signed, f: $T::F }],
+                OutKind::Raw,
+                |x, _, _| match <$T as num_traits::FromPrimitive>::$fp(x as $It) {
+                    Some(v) => v.tb(),
+                    None => u64::MAX,
+                },
+            )
+            .slow(|x, _, _| Some($T::$inh(x as $It).tb()))
+            .weight(0.25),
+        );
+    };
+}
+macro_rules! into_int_spell {
+    ($ops:ident, $T:ident, $It:ty, $name:literal, $inh:ident) => {
+        un!($ops, $T, $name, |a| <$T as Into<$It>>::into(a) as i128 as u64, |a| a.$inh() as i128 as u64);
+    };
+}
+
+fn spell_common<T: PT + num_traits::Bounded>(ops: &mut Vec<Op>) {
+    use num_traits::{Bounded, Float, FloatConst, FromPrimitive, Num, NumCast, One, Signed, ToPrimitive, Zero};
+    // operator traits vs inherent const methods
+    bin!(ops, T, "op+ vs add", |a, b| (a + b).tb(), |a, b| a.i_add(b).tb());
+    bin!(ops, T, "op- vs sub", |a, b| (a - b).tb(), |a, b| a.i_sub(b).tb());
+    bin!(ops, T, "op* vs mul", |a, b| (a * b).tb(), |a, b| a.i_mul(b).tb());
+    bin!(ops, T, "op/ vs div", |a, b| (a / b).tb(), |a, b| a.i_div(b).tb());
+    bin!(ops, T, "op% vs rem", |a, b| (a % b).tb(), |a, b| a.i_rem(b).tb());
+    un!(ops, T, "unary- vs neg", |a| (-a).tb(), |a| a.i_neg().tb());
+    bin!(ops, T, "+= vs add", |mut a, b| { a += b; a.tb() }, |a, b| a.i_add(b).tb());
+    bin!(ops, T, "-= vs sub", |mut a, b| { a -= b; a.tb() }, |a, b| a.i_sub(b).tb());
+    bin!(ops, T, "*= vs mul", |mut a, b| { a *= b; a.tb() }, |a, b| a.i_mul(b).tb());
+    bin!(ops, T, "/= vs div", |mut a, b| { a /= b; a.tb() }, |a, b| a.i_div(b).tb());
+    bin!(ops, T, "%= vs rem", |mut a, b| { a %= b; a.tb() }, |a, b| a.i_rem(b).tb());
+    // comparisons: trait operators vs inherent
+    bin!(ops, T, "== vs eq", |a, b| (a == b) as u64, |a, b| a.i_eq(b) as u64);
+    bin!(ops, T, "< vs lt", |a, b| (a < b) as u64, |a, b| a.i_lt(b) as u64);
+    bin!(ops, T, "<= vs le", |a, b| (a <= b) as u64, |a, b| a.i_le(b) as u64);
+    bin!(ops, T, "> vs gt", |a, b| (a > b) as u64, |a, b| a.i_gt(b) as u64);
+    bin!(ops, T, ">= vs ge", |a, b| (a >= b) as u64, |a, b| a.i_ge(b) as u64);
+    bin!(ops, T, "Ord::cmp vs cmp", |a, b| orc::ord_code(Ord::cmp(&a, &b)), |a, b| orc::ord_code(a.i_cmp(b)));
+    bin!(ops, T, "Ord::max vs max", |a, b| Ord::max(a, b).tb(), |a, b| a.i_max(b).tb());
+    bin!(ops, T, "Ord::min vs min", |a, b| Ord::min(a, b).tb(), |a, b| a.i_min(b).tb());
+
+    // From / Into, FromPrimitive
+    from_int_spell!(ops, T, i8, 8, true, "i8", i_from_i8, from_i8);
+    from_int_spell!(ops, T, i16, 16, true, "i16", i_from_i16, from_i16);
+    from_int_spell!(ops, T, i32, 32, true, "i32", i_from_i32, from_i32);
+    from_int_spell!(ops, T, i64, 64, true, "i64", i_from_i64, from_i64);
+    from_int_spell!(ops, T, u8, 8, false, "u8", i_from_u8, from_u8);
+    from_int_spell!(ops, T, u16, 16, false, "u16", i_from_u16, from_u16);
+    from_int_spell!(ops, T, u32, 32, false, "u32", i_from_u32, from_u32);
+    from_int_spell!(ops, T, u64, 64, false, "u64", i_from_u64, from_u64);
+    ops.push(
+        Op::new(nm::<T>("From<isize>"), &["C17"], &[Kind::Int { bits: 64, signed: true, f: T::F }], OutKind::Raw,
+                |x, _, _| <T as From<isize>>::from(x as isize).tb())
+            .slow(|x, _, _| Some(T::i_from_isize(x as isize).tb()))
+            .weight(0.25),
+    );
+    ops.push(
+        Op::new(nm::<T>("From<usize>"), &["C17"], &[Kind::Int { bits: 64, signed: false, f: T::F }], OutKind::Raw,
+                |x, _, _| <T as From<usize>>::from(x as usize).tb())
+            .slow(|x, _, _| Some(T::i_from_usize(x as usize).tb()))
+            .weight(0.25),
+    );
+    // isize/usize forward to the 64-bit conversions
+    ops.push(
+        Op::new(nm::<T>("from_isize vs from_i64"), &["C17"], &[Kind::Int { bits: 64, signed: true, f: T::F }], OutKind::Raw,
+                |x, _, _| T::i_from_isize(x as isize).tb())
+            .slow(|x, _, _| Some(T::i_from_i64(x as i64).tb()))
+            .weight(0.25),
+    );
+    ops.push(
+        Op::new(nm::<T>("from_usize vs from_u64"), &["C17"], &[Kind::Int { bits: 64, signed: false, f: T::F }], OutKind::Raw,
+                |x, _, _| T::i_from_usize(x as usize).tb())
+            .slow(|x, _, _| Some(T::i_from_u64(x).tb()))
+            .weight(0.25),
+    );
+    ops.push(
+        Op::new(nm::<T>("from_i8 vs from_i32"), &["C17"], &[Kind::Int { bits: 8, signed: true, f: T::F }], OutKind::Raw,
+                |x, _, _| T::i_from_i8(x as i8).tb())
+            .slow(|x, _, _| Some(T::i_from_i32(x as i8 as i32).tb())),
+    );
+    ops.push(
+        Op::new(nm::<T>("from_i16 vs from_i32"), &["C17"], &[Kind::Int { bits: 16, signed: true, f: T::F }], OutKind::Raw,
+                |x, _, _| T::i_from_i16(x as i16).tb())
+            .slow(|x, _, _| Some(T::i_from_i32(x as i16 as i32).tb())),
+    );
+    ops.push(
+        Op::new(nm::<T>("from_u8 vs from_u32"), &["C17"], &[Kind::Int { bits: 8, signed: false, f: T::F }], OutKind::Raw,
+                |x, _, _| T::i_from_u8(x as u8).tb())
+            .slow(|x, _, _| Some(T::i_from_u32(x as u8 as u32).tb())),
+    );
+    ops.push(
+        Op::new(nm::<T>("from_u16 vs from_u32"), &["C17"], &[Kind::Int { bits: 16, signed: false, f: T::F }], OutKind::Raw,
+                |x, _, _| T::i_from_u16(x as u16).tb())
+            .slow(|x, _, _| Some(T::i_from_u32(x as u16 as u32).tb())),
+    );
+    into_int_spell!(ops, T, i8, "Into<i8> vs to_i8", i_to_i8);
+    into_int_spell!(ops, T, i16, "Into<i16> vs to_i16", i_to_i16);
+    into_int_spell!(ops, T, i32, "Into<i32> vs to_i32", i_to_i32);
+    into_int_spell!(ops, T, i64, "Into<i64> vs to_i64", i_to_i64);
+    into_int_spell!(ops, T, isize, "Into<isize> vs to_isize", i_to_isize);
+    into_int_spell!(ops, T, u8, "Into<u8> vs to_u8", i_to_u8);
+    into_int_spell!(ops, T, u16, "Into<u16> vs to_u16", i_to_u16);
+    into_int_spell!(ops, T, u32, "Into<u32> vs to_u32", i_to_u32);
+    into_int_spell!(ops, T, u64, "Into<u64> vs to_u64", i_to_u64);
+    into_int_spell!(ops, T, usize, "Into<usize> vs to_usize", i_to_usize);
+    // narrow to_* forward to the wide ones by truncation (documented forwarding in macros.rs)
+    un!(ops, T, "to_i8 vs to_i32 as i8", |a| a.i_to_i8() as i128 as u64, |a| (a.i_to_i32() as i8) as i128 as u64);
+    un!(ops, T, "to_i16 vs to_i32 as i16", |a| a.i_to_i16() as i128 as u64, |a| (a.i_to_i32() as i16) as i128 as u64);
+    un!(ops, T, "to_u8 vs to_u32 as u8", |a| a.i_to_u8() as u64, |a| (a.i_to_u32() as u8) as u64);
+    un!(ops, T, "to_u16 vs to_u32 as u16", |a| a.i_to_u16() as u64, |a| (a.i_to_u32() as u16) as u64);
+    un!(ops, T, "to_isize vs to_i64", |a| a.i_to_isize() as i128 as u64, |a| a.i_to_i64() as i128 as u64);
+    un!(ops, T, "to_usize vs to_u64", |a| a.i_to_usize() as u64, |a| a.i_to_u64());
+    // floats
+    ops.push(
+        Op::new(nm::<T>("From<f32> vs from_f32"), &["C17"], &[Kind::F32(T::F)], OutKind::Raw,
+                |x, _, _| <T as From<f32>>::from(f32::from_bits(x as u32)).tb())
+            .slow(|x, _, _| Some(T::i_from_f32(f32::from_bits(x as u32)).tb()))
+            .weight(0.25),
+    );
+    ops.push(
+        Op::new(nm::<T>("From<f64> vs from_f64"), &["C17"], &[Kind::F64(T::F)], OutKind::Raw,
+                |x, _, _| <T as From<f64>>::from(f64::from_bits(x)).tb())
+            .slow(|x, _, _| Some(T::i_from_f64(f64::from_bits(x)).tb()))
+            .weight(0.25),
+    );
+    ops.push(
+        Op::new(nm::<T>("FromPrimitive::from_f32 vs from_f32"), &["C17"], &[Kind::F32(T::F)], OutKind::Raw,
+                |x, _, _| <T as FromPrimitive>::from_f32(f32::from_bits(x as u32)).map(|v| v.tb()).unwrap_or(u64::MAX))
+            .slow(|x, _, _| Some(T::i_from_f32(f32::from_bits(x as u32)).tb()))
+            .weight(0.25),
+    );
+    ops.push(
+        Op::new(nm::<T>("FromPrimitive::from_f64 vs from_f64"), &["C17"], &[Kind::F64(T::F)], OutKind::Raw,
+                |x, _, _| <T as FromPrimitive>::from_f64(f64::from_bits(x)).map(|v| v.tb()).unwrap_or(u64::MAX))
+            .slow(|x, _, _| Some(T::i_from_f64(f64::from_bits(x)).tb()))
+            .weight(0.25),
+    );
+    ops.push(
+        Op::new(nm::<T>("NumCast::from(f64) vs from_f64"), &["C17"], &[Kind::F64(T::F)], OutKind::Raw,
+                |x, _, _| <T as NumCast>::from(f64::from_bits(x)).map(|v| v.tb()).unwrap_or(u64::MAX))
+            .slow(|x, _, _| Some(T::i_from_f64(f64::from_bits(x)).tb()))
+            .weight(0.25),
+    );
+    ops.push(
+        Op::new(nm::<T>("NumCast::from(i64) vs from_f64(i64 as f64)"), &["C17"], &[Kind::Int { bits: 64, signed: true, f: T::F }], OutKind::Raw,
+                |x, _, _| <T as NumCast>::from(x as i64).map(|v| v.tb()).unwrap_or(u64::MAX))
+            .slow(|x, _, _| Some(T::i_from_f64(x as i64 as f64).tb()))
+            .weight(0.25)
+            .note("NumCast::from is documented (macros.rs) as n.to_f64().map(into)"),
+    );
+    un!(ops, T, "Into<f32> vs to_f32", |a| orc::canon_f32(<T as Into<f32>>::into(a).to_bits()) as u64,
+        |a| orc::canon_f32(a.i_to_f32().to_bits()) as u64);
+    un!(ops, T, "Into<f64> vs to_f64", |a| orc::canon_f64(<T as Into<f64>>::into(a).to_bits()),
+        |a| orc::canon_f64(a.i_to_f64().to_bits()));
+    un!(ops, T, "ToPrimitive::to_f64 vs to_f64",
+        |a| orc::canon_f64(ToPrimitive::to_f64(&a).map(|v| v.to_bits()).unwrap_or(1)),
+        |a| orc::canon_f64(a.i_to_f64().to_bits()));
+    un!(ops, T, "ToPrimitive::to_i64 vs to_i64", |a| ToPrimitive::to_i64(&a).map(|v| v as u64).unwrap_or(0xdead),
+        |a| a.i_to_i64() as u64);
+    un!(ops, T, "ToPrimitive::to_u64 vs to_u64", |a| ToPrimitive::to_u64(&a).unwrap_or(0xdead), |a| a.i_to_u64());
+    // text
+    un!(ops, T, "Num::from_str_radix(10) vs FromStr",
+        |a| { let s = a.to_string(); <T as Num>::from_str_radix(&s, 10).map(|v| v.tb()).unwrap_or(u64::MAX) },
+        |a| { let s = a.to_string(); s.parse::<T>().map(|v| v.tb()).unwrap_or(u64::MAX - 1) });
+    un!(ops, T, "FromStr vs from_f64(parse f64)",
+        |a| { let s = a.to_string(); s.parse::<T>().map(|v| v.tb()).unwrap_or(u64::MAX) },
+        |a| { let s = a.to_string(); s.parse::<f64>().map(|v| T::i_from_f64(v).tb()).unwrap_or(u64::MAX - 1) });
+    un!(ops, T, "Display vs f64 Display",
+        |a| crate::sweep::hash_str(&a.to_string()),
+        |a| crate::sweep::hash_str(&a.i_to_f64().to_string()));
+
+    // Zero / One / Bounded / constants
+    nul!(ops, T, "Zero::zero", || <T as Zero>::zero().tb(), || T::c_zero().tb());
+    nul!(ops, T, "One::one", || <T as One>::one().tb(), || T::c_one().tb());
+    nul!(ops, T, "Bounded::min_value", || <T as Bounded>::min_value().tb(), || T::c_min().tb());
+    nul!(ops, T, "Bounded::max_value", || <T as Bounded>::max_value().tb(), || T::c_max().tb());
+    nul!(ops, T, "Float::min_value", || <T as Float>::min_value().tb(), || T::c_min().tb());
+    nul!(ops, T, "Float::max_value", || <T as Float>::max_value().tb(), || T::c_max().tb());
+    nul!(ops, T, "Float::min_positive_value", || <T as Float>::min_positive_value().tb(), || T::c_min_positive().tb());
+    nul!(ops, T, "Float::nan", || <T as Float>::nan().tb(), || T::c_nar().tb());
+    nul!(ops, T, "Float::infinity", || <T as Float>::infinity().tb(), || T::c_nar().tb());
+    nul!(ops, T, "Float::neg_infinity", || <T as Float>::neg_infinity().tb(), || T::c_nar().tb());
+    nul!(ops, T, "Float::neg_zero", || <T as Float>::neg_zero().tb(), || T::c_zero().tb());
+    un!(ops, T, "Zero::is_zero vs is_zero", |a| Zero::is_zero(&a) as u64, |a| a.i_is_zero() as u64);
+    un!(ops, T, "One::is_one vs == ONE", |a| One::is_one(&a) as u64, |a| a.i_eq(T::c_one()) as u64);
+    macro_rules! fconst {
+        ($name:ident) => {
+            nul!(ops, T, concat!("FloatConst::", stringify!($name)),
+                 || <T as FloatConst>::$name().tb(), || <T as softposit::MathConsts>::$name.tb());
+        };
+    }
+    fconst!(E);
+    fconst!(FRAC_1_PI);
+    fconst!(FRAC_1_SQRT_2);
+    fconst!(FRAC_2_PI);
+    fconst!(FRAC_2_SQRT_PI);
+    fconst!(FRAC_PI_2);
+    fconst!(FRAC_PI_3);
+    fconst!(FRAC_PI_4);
+    fconst!(FRAC_PI_6);
+    fconst!(FRAC_PI_8);
+    fconst!(LN_10);
+    fconst!(LN_2);
+    fconst!(LOG10_E);
+    fconst!(LOG2_E);
+    fconst!(PI);
+    fconst!(SQRT_2);
+
+    // Signed
+    un!(ops, T, "Signed::abs vs abs", |a| Signed::abs(&a).tb(), |a| a.i_abs().tb());
+    un!(ops, T, "Signed::signum vs signum", |a| Signed::signum(&a).tb(), |a| a.i_signum().tb());
+    un!(ops, T, "Signed::is_negative vs is_sign_negative", |a| Signed::is_negative(&a) as u64, |a| a.i_is_sign_negative() as u64);
+    un!(ops, T, "Signed::is_positive vs is_sign_positive", |a| Signed::is_positive(&a) as u64, |a| a.i_is_sign_positive() as u64);
+    bin!(ops, T, "Signed::abs_sub vs (a<=b ? 0 : a-b)", |a, b| Signed::abs_sub(&a, &b).tb(),
+         |a, b| if a.i_le(b) { T::c_zero().tb() } else { a.i_sub(b).tb() });
+
+    // Float: forwarding methods that exist for all three types
+    un!(ops, T, "Float::floor vs floor", |a| Float::floor(a).tb(), |a| a.i_floor().tb());
+    un!(ops, T, "Float::ceil vs ceil", |a| Float::ceil(a).tb(), |a| a.i_ceil().tb());
+    un!(ops, T, "Float::round vs round", |a| Float::round(a).tb(), |a| a.i_round().tb());
+    un!(ops, T, "Float::trunc vs trunc", |a| Float::trunc(a).tb(), |a| a.i_trunc().tb());
+    un!(ops, T, "Float::fract vs fract", |a| Float::fract(a).tb(), |a| a.i_fract().tb());
+    un!(ops, T, "Float::abs vs abs", |a| Float::abs(a).tb(), |a| a.i_abs().tb());
+    un!(ops, T, "Float::signum vs signum", |a| Float::signum(a).tb(), |a| a.i_signum().tb());
+    un!(ops, T, "Float::sqrt vs sqrt", |a| Float::sqrt(a).tb(), |a| a.i_sqrt().tb());
+    un!(ops, T, "Float::recip vs recip", |a| Float::recip(a).tb(), |a| a.i_recip().tb());
+    un!(ops, T, "Float::is_nan vs is_nan", |a| Float::is_nan(a) as u64, |a| a.i_is_nan() as u64);
+    un!(ops, T, "Float::is_infinite vs is_infinite", |a| Float::is_infinite(a) as u64, |a| a.i_is_infinite() as u64);
+    un!(ops, T, "Float::is_finite vs is_finite", |a| Float::is_finite(a) as u64, |a| a.i_is_finite() as u64);
+    un!(ops, T, "Float::is_normal vs is_normal", |a| Float::is_normal(a) as u64, |a| a.i_is_normal() as u64);
+    un!(ops, T, "Float::classify vs classify", |a| fcat(Float::classify(a)), |a| fcat(a.i_classify()));
+    un!(ops, T, "Float::is_sign_positive vs is_sign_positive", |a| Float::is_sign_positive(a) as u64, |a| a.i_is_sign_positive() as u64);
+    un!(ops, T, "Float::is_sign_negative vs is_sign_negative", |a| Float::is_sign_negative(a) as u64, |a| a.i_is_sign_negative() as u64);
+    un!(ops, T, "Float::asinh vs asinh", |a| Float::asinh(a).tb(), |a| a.i_asinh().tb());
+    un!(ops, T, "Float::acosh vs acosh", |a| Float::acosh(a).tb(), |a| a.i_acosh().tb());
+    bin!(ops, T, "Float::max vs max", |a, b| Float::max(a, b).tb(), |a, b| a.i_max(b).tb());
+    bin!(ops, T, "Float::min vs min", |a, b| Float::min(a, b).tb(), |a, b| a.i_min(b).tb());
+    ops.push(
+        Op::new(nm::<T>("Float::mul_add vs mul_add"), &["C17"], &[Kind::Pat(T::F), Kind::Pat(T::F), Kind::Pat(T::F)], OutKind::Raw,
+                |x, y, z| Float::mul_add(T::fb(x), T::fb(y), T::fb(z)).tb())
+            .slow(|x, y, z| Some(T::fb(x).i_mul_add(T::fb(y), T::fb(z)).tb()))
+            .weight(0.25),
+    );
+    // helpers defined in terms of other operations (macros.rs / math.rs)
+    un!(ops, T, "recip vs ONE/x", |a| a.i_recip().tb(), |a| T::c_one().i_div(a).tb());
+    bin!(ops, T, "rem vs a - trunc(a/b)*b", |a, b| a.i_rem(b).tb(), |a, b| a.i_sub(a.i_div(b).i_trunc().i_mul(b)).tb());
+    un!(ops, T, "trunc vs (x>0 ? floor : ceil)", |a| a.i_trunc().tb(),
+        |a| if a.i_gt(T::c_zero()) { a.i_floor().tb() } else { a.i_ceil().tb() });
+    un!(ops, T, "fract vs x - trunc(x)", |a| a.i_fract().tb(), |a| a.i_sub(a.i_trunc()).tb());
+    un!(ops, T, "abs vs (neg ? -x : x)", |a| a.i_abs().tb(), |a| if a.i_is_sign_negative() { a.i_neg().tb() } else { a.tb() });
+}
+
+macro_rules! float_fwd1 {
+    ($ops:ident, $T:ident, $($m:ident),*) => {$(
+        un!($ops, $T, concat!("Float::", stringify!($m), " vs ", stringify!($m)),
+            |a| num_traits::Float::$m(a).tb(), |a| <$T>::$m(a).tb());
+    )*};
+}
+macro_rules! float_fwd2 {
+    ($ops:ident, $T:ident, $($m:ident),*) => {$(
+        bin!($ops, $T, concat!("Float::", stringify!($m), " vs ", stringify!($m)),
+            |a, b| num_traits::Float::$m(a, b).tb(), |a, b| <$T>::$m(a, b).tb());
+    )*};
+}
+
+fn quire_spell<Q: QT>(ops: &mut Vec<Op>) {
+    let f = <Q::P as PT>::F;
+    let k = Kind::Pat(f);
+    let qn = |s: &str| format!("{}::spell::{}", Q::NAME, s);
+    // digest of the observable state
+    fn dg<Q: QT>(q: &Q) -> u64 {
+        let mut h = (q.i_is_zero() as u64) | ((q.i_is_nar() as u64) << 1) | (q.i_to_posit().tb() << 2);
+        for w in q.limbs_le() {
+            h = crate::rng::mix64(h ^ w);
+        }
+        h
+    }
+    // a state reached from three operands, then the trait spelling vs the inherent one
+    macro_rules! q3 {
+        ($name:literal, $a:expr, $b:expr) => {
+            ops.push(
+                Op::new(qn($name), &["C17"], &[k, k, k], OutKind::Raw, |x, y, z| {
+                    let f: fn(Q::P, Q::P, Q::P) -> u64 = $a;
+                    f(<Q::P as PT>::fb(x), <Q::P as PT>::fb(y), <Q::P as PT>::fb(z))
+                })
+                .slow(|x, y, z| {
+                    let g: fn(Q::P, Q::P, Q::P) -> u64 = $b;
+                    Some(g(<Q::P as PT>::fb(x), <Q::P as PT>::fb(y), <Q::P as PT>::fb(z)))
+                })
+                .weight(0.25),
+            );
+        };
+    }
+    q3!("Quire::init+add_product vs init+add_product",
+        |a, b, c| { let mut q = Q::t_init(); q.t_add_product(a, b); q.t_add_product(b, c); dg(&q) },
+        |a, b, c| { let mut q = Q::init(); q.m_add_product(a, b); q.m_add_product(b, c); dg(&q) });
+    q3!("Quire::sub_product vs sub_product",
+        |a, b, c| { let mut q = Q::i_from_posit(c); q.t_sub_product(a, b); dg(&q) },
+        |a, b, c| { let mut q = Q::i_from_posit(c); q.m_sub_product(a, b); dg(&q) });
+    q3!("add_product vs +=(a,b)",
+        |a, b, c| { let mut q = Q::i_from_posit(c); q.m_add_product(a, b); dg(&q) },
+        |a, b, c| { let mut q = Q::i_from_posit(c); q.add_prod(a, b); dg(&q) });
+    q3!("sub_product vs -=(a,b)",
+        |a, b, c| { let mut q = Q::i_from_posit(c); q.m_sub_product(a, b); dg(&q) },
+        |a, b, c| { let mut q = Q::i_from_posit(c); q.sub_prod(a, b); dg(&q) });
+    q3!("Quire::from_posit vs from_posit",
+        |a, _, _| dg(&Q::t_from_posit(a)), |a, _, _| dg(&Q::i_from_posit(a)));
+    q3!("From<posit> vs from_posit",
+        |a, _, _| dg(&Q::from_trait(a)), |a, _, _| dg(&Q::i_from_posit(a)));
+    q3!("Quire::to_posit/is_zero/is_nar vs inherent",
+        |a, b, c| { let mut q = Q::i_from_posit(c); q.add_prod(a, b);
+                    q.t_to_posit().tb() ^ ((q.t_is_zero() as u64) << 40) ^ ((q.t_is_nar() as u64) << 41) },
+        |a, b, c| { let mut q = Q::i_from_posit(c); q.add_prod(a, b);
+                    q.i_to_posit().tb() ^ ((q.i_is_zero() as u64) << 40) ^ ((q.i_is_nar() as u64) << 41) });
+    q3!("Quire::neg vs neg",
+        |a, b, c| { let mut q = Q::i_from_posit(c); q.add_prod(a, b); q.t_neg(); dg(&q) },
+        |a, b, c| { let mut q = Q::i_from_posit(c); q.add_prod(a, b); q.i_neg(); dg(&q) });
+    q3!("Quire::clear vs clear",
+        |a, b, c| { let mut q = Q::i_from_posit(c); q.add_prod(a, b); q.t_clear(); dg(&q) },
+        |a, b, c| { let mut q = Q::i_from_posit(c); q.add_prod(a, b); q.i_clear(); dg(&q) });
+    q3!("Quire::from_bits(to_bits) vs identity",
+        |a, b, c| { let mut q = Q::i_from_posit(c); q.add_prod(a, b); dg(&q.t_bits_roundtrip()) },
+        |a, b, c| { let mut q = Q::i_from_posit(c); q.add_prod(a, b); dg(&q) });
+    q3!("Into<posit> (From<Q>, From<&Q>) vs to_posit",
+        |a, b, c| { let mut q = Q::i_from_posit(c); q.add_prod(a, b); q.into_posit_by_ref().tb() ^ (q.dup().into_posit_by_value().tb() << 32) },
+        |a, b, c| { let mut q = Q::i_from_posit(c); q.add_prod(a, b); let p = q.i_to_posit().tb(); p ^ (p << 32) });
+    ops.push(
+        Op::new(qn("AssociatedQuire::Q::init vs init"), &["C17"], &[], OutKind::Raw, |_, _, _| {
+            let mut h = 7u64;
+            for w in Q::assoc_init_limbs() {
+                h = crate::rng::mix64(h ^ w);
+            }
+            h
+        })
+        .slow(|_, _, _| {
+            let mut h = 7u64;
+            for w in Q::init().limbs_le() {
+                h = crate::rng::mix64(h ^ w);
+            }
+            Some(h)
+        }),
+    );
+}
+
+pub fn register(all: &mut Vec<Op>) {
+    let mut v: Vec<Op> = Vec::new();
+    register_inner(&mut v);
+    for mut o in v {
+        if o.name.contains("::spell::") {
+            o.differential = true;
+        }
+        all.push(o);
+    }
+}
+
+fn register_inner(ops: &mut Vec<Op>) {
+    spell_common::<P8E0>(ops);
+    spell_common::<P16E1>(ops);
+    spell_common::<P32E2>(ops);
+    // forwarding of the elementary functions each type implements
+    float_fwd1!(ops, P8E0, exp, ln);
+    float_fwd1!(ops, P16E1, exp, exp2, ln, log2);
+    float_fwd1!(ops, P32E2, exp, exp2, ln, log2, cbrt, sin, cos, tan, asin, acos, atan, sinh, cosh, tanh);
+    float_fwd2!(ops, P32E2, powf, hypot, atan2);
+    ops.push(
+        Op::new("P32E2::spell::Float::sin_cos vs sin_cos", &["C17"], &[Kind::Pat(crate::val::P32)], OutKind::Raw, |x, _, _| {
+            let (s, c) = num_traits::Float::sin_cos(P32E2::from_bits(x as u32));
+            (s.to_bits() as u64) | ((c.to_bits() as u64) << 32)
+        })
+        .slow(|x, _, _| {
+            let (s, c) = P32E2::from_bits(x as u32).sin_cos();
+            Some((s.to_bits() as u64) | ((c.to_bits() as u64) << 32))
+        })
+        .weight(0.25),
+    );
+    quire_spell::<Q8E0>(ops);
+    quire_spell::<Q16E1>(ops);
+    quire_spell::<Q32E2>(ops);
+    // type aliases
+    macro_rules! alias {
+        ($a:ty, $b:ty, $n:literal) => {
+            ops.push(
+                Op::new(concat!("alias::", $n), &["C17"], &[], OutKind::Raw, |_, _, _| {
+                    (core::any::TypeId::of::<$a>() == core::any::TypeId::of::<$b>()) as u64
+                })
+                .slow(|_, _, _| Some(1)),
+            );
+        };
+    }
+    alias!(softposit::P8, P8E0, "P8=P8E0");
+    alias!(softposit::P16, P16E1, "P16=P16E1");
+    alias!(softposit::P32, P32E2, "P32=P32E2");
+    alias!(softposit::Q8, Q8E0, "Q8=Q8E0");
+    alias!(softposit::Q16, Q16E1, "Q16=Q16E1");
+    alias!(softposit::Q32, Q32E2, "Q32=Q32E2");
+}
